@@ -480,6 +480,109 @@ def od_keys(ip, d):
     return KeysVal(d)
 
 
+# bytes / bytearray ---------------------------------------------------------------
+# A bytes value is a z3 String term (a sequence; only its structure matters, not the alphabet).  A bytearray is a heap
+# object holding one.  Slices with non-negative bounds are exactly str.substr (which clips like Python does); a
+# possibly negative bound is outside the modelled subset (the units exclude it by precondition).
+
+register_class("ByteArray", {"val": BYTES}, kind="bytearray")
+BA = RefT("ByteArray")
+
+
+def _nonneg(ip, v, what):
+    if v is None:
+        return None
+    if isinstance(v, int):
+        if v < 0:
+            raise Unsupported(f"negative {what}")
+        return z3.IntVal(v)
+    if isinstance(v, Sym) and v.ty is INT:
+        if ip.st.feasible(v.t < 0):
+            raise Unsupported(f"possibly negative {what} (needs a precondition)")
+        return v.t
+    raise Unsupported(f"slice bound {v!r}")
+
+
+def seq_slice(ip, t, sl):
+    if sl.step is not None:
+        raise Unsupported("slice step")
+    lo = _nonneg(ip, sl.start, "slice start")
+    hi = _nonneg(ip, sl.stop, "slice stop")
+    lo = lo if lo is not None else z3.IntVal(0)
+    if hi is None:
+        return z3.SubString(t, lo, z3.Length(t))
+    return z3.SubString(t, lo, hi - lo)
+
+
+def ba_val(ip, b):
+    return ip.st.get("ByteArray", "val", b.t)
+
+
+def ba_extend(ip, b, data):
+    ip.st.put("ByteArray", "val", b.t, z3.Concat(ba_val(ip, b), bytes_term(ip, data)))
+
+
+OCC = z3.Function("occ", z3.StringSort(), z3.StringSort(), z3.IntSort(), z3.BoolSort())
+
+
+def occ(buf, sub, j):
+    """`sub` occurs in `buf` at position j (j >= 0 and buf[j:j+len(sub)] == sub)"""
+    return OCC(buf, sub, j)
+
+
+def occ_definition(st):
+    b, d = z3.String(st.uniq("b")), z3.String(st.uniq("d"))
+    j = z3.Int(st.uniq("j"))
+    return z3.ForAll([b, d, j], OCC(b, d, j) == z3.And(j >= 0, z3.SubString(b, j, z3.Length(d)) == d), patterns=[OCC(b, d, j)])
+
+
+def occ_prefix_lemma(st):
+    """an occurrence that lies wholly inside the first part of a concatenation is an occurrence in that part (and vice
+    versa).  A lemma about sequences, discharged on its own by the unit `SeqLemmas` of specs/c16_buffered.py and assumed
+    as an axiom elsewhere (E-matching cannot find it: the term occ(b, d, j) does not occur in the goals)."""
+    b, x, d = z3.String(st.uniq("b")), z3.String(st.uniq("x")), z3.String(st.uniq("d"))
+    j = z3.Int(st.uniq("j"))
+    return z3.ForAll([b, x, d, j], z3.Implies(z3.And(j >= 0, j + z3.Length(d) <= z3.Length(b)), OCC(z3.Concat(b, x), d, j) == OCC(b, d, j)), patterns=[OCC(z3.Concat(b, x), d, j)])
+
+
+def ba_find(ip, b, sub, start=0):
+    """bytearray.find(sub, start): the *first-occurrence contract* of CPython's find (E10-find, assumed): the result is
+    -1 or a position >= start at which `sub` occurs, and `sub` occurs at no position in [start, result) -- nowhere at or
+    after start when the result is -1."""
+    st = ip.st
+    off = _nonneg(ip, start, "find() start")
+    buf, d = ba_val(ip, b), bytes_term(ip, sub)
+    r = st.fresh("found", z3.IntSort())
+    j = z3.Int(st.uniq("j"))
+    st.assume(z3.Or(r == -1, z3.And(r >= off, occ(buf, d, r))))
+    st.assume(z3.ForAll([j], z3.Implies(z3.And(j >= off, z3.Or(r == -1, j < r)), z3.Not(occ(buf, d, j))), patterns=[occ(buf, d, j)]))
+    return Sym(r, INT)
+
+
+def ba_len(ip, b):
+    return Sym(z3.Length(ba_val(ip, b)), INT)
+
+
+def bytes_term(ip, v):
+    if isinstance(v, Sym) and v.ty is BYTES:
+        return v.t
+    if is_ref(v) and v.ty.cls == "ByteArray":
+        return ba_val(ip, v)
+    if isinstance(v, bytes):
+        return ip.term(v)
+    raise Unsupported(f"not a bytes value: {v!r}")
+
+
+def b_bytes(ip, x=b""):
+    return Sym(bytes_term(ip, x), BYTES)
+
+
+def b_bytearray(ip, x=b""):
+    r = Sym(ip.st.alloc("ByteArray"), BA)
+    ip.st.put("ByteArray", "val", r.t, bytes_term(ip, x))
+    return r
+
+
 # asyncio.Future -------------------------------------------------------------
 
 
@@ -606,6 +709,7 @@ MODEL_METHODS = {
         "result": fut_result,
     },
     "AEvent": {"set": aev_set, "is_set": aev_is_set, "wait": aev_wait},
+    "bytearray": {"extend": ba_extend, "find": ba_find, "__len__": ba_len},
     "Task": {"cancelling": task_cancelling, "done": task_done, "has_pending_cancellation": task_has_pending_cancellation},
 }
 
@@ -644,6 +748,13 @@ def del_attr(ip, obj, attr):
 def get_item(ip, obj, idx):
     if isinstance(obj, tuple) and isinstance(idx, int):
         return obj[idx]
+    if isinstance(idx, slice) and ((isinstance(obj, Sym) and obj.ty is BYTES) or (is_ref(obj) and obj.ty.cls == "ByteArray") or isinstance(obj, bytes)):
+        t = seq_slice(ip, bytes_term(ip, obj), idx)
+        if is_ref(obj):  # a slice of a bytearray is a new bytearray
+            r = Sym(ip.st.alloc("ByteArray"), BA)
+            ip.st.put("ByteArray", "val", r.t, t)
+            return r
+        return Sym(t, BYTES)
     if is_ref(obj):
         ci = CLASSES[obj.ty.cls]
         if ci.kind == "odict":
@@ -676,6 +787,18 @@ def set_item(ip, obj, idx, v):
 
 
 def del_item(ip, obj, idx):
+    if is_ref(obj) and obj.ty.cls == "ByteArray" and isinstance(idx, slice):
+        # del b[lo:hi]  ==  b = b[:lo] + b[hi:]
+        if idx.step is not None:
+            raise Unsupported("slice step")
+        v = ba_val(ip, obj)
+        lo = _nonneg(ip, idx.start, "slice start")
+        hi = _nonneg(ip, idx.stop, "slice stop")
+        lo = lo if lo is not None else z3.IntVal(0)
+        n = z3.Length(v)
+        tail = z3.StringVal("") if hi is None else z3.SubString(v, z3.If(hi >= lo, hi, lo), n)
+        ip.st.put("ByteArray", "val", obj.t, z3.Concat(z3.SubString(v, 0, lo), tail))
+        return None
     if is_ref(obj):
         ci = CLASSES[obj.ty.cls]
         if ci.kind == "odict":
@@ -769,6 +892,8 @@ def b_len(ip, x):
         return len(x)
     if isinstance(x, Sym) and x.ty is BYTES:
         return Sym(z3.Length(x.t), INT)
+    if is_ref(x) and x.ty.cls == "ByteArray":
+        return ba_len(ip, x)
     if is_ref(x):
         ci = CLASSES[x.ty.cls]
         m = find_model_method(ci, "__len__")
@@ -1010,6 +1135,8 @@ GLOBALS = {
     "current_task": Builtin("current_task", b_current_task),
     "deque": Builtin("deque", b_deque),
     "list": Builtin("list", b_list),
+    "bytes": Builtin("bytes", b_bytes),
+    "bytearray": Builtin("bytearray", b_bytearray),
     "range": Builtin("range", b_range),
     "super": Builtin("super", b_super),
     "set": Builtin("set", b_set),
